@@ -78,6 +78,17 @@ def suite_eval(ctx, case):
         if k == 'wca' and p['eps'] >= 0:
             ctx.pred('eval', case, bool(np.all(out >= -1e-12 * abs(p['eps']))), 'WCA negative: min %r' % float(np.min(out)), key='C10:wca-nonneg')
     ctx.pred('eval', case, np.array_equal(r, r0) and np.array_equal(out, out2, equal_nan=True), '%s modifies r or is not repeatable' % k, key='C10:purity')
+    # a deep copy (what a PairTable stores, what a PRISM object holds) is an object of its own: re-using the ORIGINAL for the next pair
+    # with other parameters must not change what the copy returns
+    import copy
+    V = copy.deepcopy(U)
+    for attr, val in (('epsilon', 3.0 * pp.get('eps', 1.0) + 1.0), ('sigma', s_ * 1.7), ('alpha', 0.123), ('high_value', 7.0), ('rcut', 9.9)):
+        if hasattr(U, attr):
+            try: setattr(U, attr, val)
+            except Exception: pass
+    with np.errstate(all='ignore'):
+        outV = np.array(V.calculate(r), dtype=float)
+    ctx.pred('eval', case, bool(np.array_equal(outV, out, equal_nan=True)), '%s: a deep copy returns other values after the attributes of the original object were changed' % k, key='C10:purity')
 
 def suite_sigma(ctx, case):
     """sigma defaulting through createPRISM and the contact rule on a real Domain"""
@@ -229,7 +240,7 @@ def generate(ctx):
         for m in range(1, ctx.n(24, 100)):
             d1 = float(pyPRISM.Domain(length=L, dr=dr).r[0]) * 0 + m * dr
             d2 = (m + 2 * rng.randrange(0, 3)) * dr
-            case = {'L': L, 'dr': dr, 'd': [d1, d2], 'kT': rng.choice([1.0, 0.5, 2.0]), 'explicit': rng.choice([None, None, (m + 1) * dr])}
+            case = {'L': L, 'dr': dr, 'd': [d1, d2], 'kT': rng.choice([1.0, 0.5, 2.0]), 'explicit': rng.choice([None, None, (m + 1) * dr, 0.0, 0])}
             case['assign'] = rng.choice(['group', 'group', 'setunset', 'shared', 'partial+setunset'])
             c0 = rng.random()
             if c0 < 0.3: case['pre'] = [['A', 3 * dr], ['B', 5 * dr]]; case['order'] = rng.choice([[['A', d1]], [['B', d2], ['A', d1]], [['A', d1], ['B', d2]]])
